@@ -130,7 +130,7 @@ var clauseKW = map[string]bool{"func": true, "requires": true, "ensures": true, 
 	"implements": true, "ghost": true, "define": true, "axiom": true, "lemma": true, "calls": true, "assert": true,
 	"assume": true, "import": true, "noinline": true, "decreases": true, "atcall": true, "callsonly": true, "guardedby": true, "dynamiccalls": true}
 
-var tagRe = regexp.MustCompile(`^((?:@(?:C[0-9]+|SAFETY)\s*)+):?\s*`)
+var tagRe = regexp.MustCompile(`^((?:@(?:C[0-9]+|SAFETY|DET)\s*)+):?\s*`)
 
 func parseContractFile(path, pkgPath string, isSpeclib bool) (*ContractFile, error) {
 	data, err := os.ReadFile(path)
